@@ -156,9 +156,35 @@ Proof.
   rewrite cmp_names_eq. destruct (o_eq o), (u_eq u), (o_order o); cbn; auto.
 Qed.
 
-Theorem hash_fields_eq : forall fs, cy_hash_names fs = py_hash_names fs.
+(* with the repaired `hash is None` test *)
+Theorem hash_fields_eq : forall fs, cy_hash_names true fs = py_hash_names fs.
 Proof.
-  intros. unfold cy_hash_names, py_hash_names, real_fields. now rewrite filter_filter.
+  intros. unfold cy_hash_names, py_hash_names, real_fields, cy_hash_flag. now rewrite filter_filter.
+Qed.
+
+(* the code as it is: equal only when no real field combines hash=None with compare=False *)
+Definition hash_none_is_compared (fs : list field) : Prop :=
+  forall f, In f fs -> f_initvar f = false -> f_hash f = None -> f_cmp f = true.
+
+Theorem hash_fields_eq_partial : forall fs,
+  hash_none_is_compared fs -> cy_hash_names false fs = py_hash_names fs.
+Proof.
+  intros fs H. rewrite <- hash_fields_eq. unfold cy_hash_names. f_equal. apply filter_ext_in.
+  intros f Hf. destruct (f_initvar f) eqn:Hiv; [reflexivity|]. cbn [negb andb].
+  unfold cy_hash_flag, hash_flag. destruct (f_hash f) eqn:Hh; [reflexivity|].
+  symmetry. apply H; auto.
+Qed.
+
+(* full statement (false): forall fs, cy_hash_names false fs = py_hash_names fs.
+   field a compared, field b = field(compare=False): b is hashed by Cython only, so equal
+   objects get different hashes *)
+Theorem hash_fields_compare_false_refuted : exists fs,
+  cy_hash_names false fs = [1%N; 2%N] /\ py_hash_names fs = [1%N] /\ py_cmp_names fs = [1%N]
+  /\ cy_cmp_names fs = [1%N].
+Proof.
+  exists [mkField 1%N DNone true true true None None false;
+          mkField 2%N DNone true true false None None false].
+  repeat split; reflexivity.
 Qed.
 
 (* the fields hashed are the compared ones unless field(hash=...) says otherwise *)
@@ -179,7 +205,7 @@ Proof. intros [] [] [] []; reflexivity. Qed.
 Definition explicit_hash_agree (u : user) : Prop := ~ (u_hash u = HNone /\ u_eq u = true).
 
 Theorem hash_eq_partial : forall o u fs,
-  explicit_hash_agree u -> cy_hash o u fs = py_hash o u fs.
+  explicit_hash_agree u -> cy_hash true o u fs = py_hash o u fs.
 Proof.
   intros o u fs H. unfold cy_hash, py_hash. rewrite hash_fields_eq, hash_action_eq.
   do 2 f_equal. unfold cy_explicit_hash, py_explicit_hash, explicit_hash_agree in *.
@@ -187,7 +213,7 @@ Proof.
 Qed.
 
 (* full statement (false): forall o u fs, cy_hash o u fs = py_hash o u fs *)
-Theorem hash_eq_refuted : exists o u fs, cy_hash o u fs = HErr /\ py_hash o u fs = HAdd [1%N].
+Theorem hash_eq_refuted : exists o u fs, cy_hash true o u fs = HErr /\ py_hash o u fs = HAdd [1%N].
 Proof.
   exists (mkOpts true true true false true false true false),
     (mkUser false false true HNone false false), [fld 1 DNone true None].
@@ -314,13 +340,21 @@ Record domain_ok (o : opts) (u : user) (fs : list field) : Prop := {
   dom_body : init_false_has_default fs
 }.
 
-Theorem decisions_eq_partial : forall o u fs, domain_ok o u fs -> cy_decide o u fs = py_decide o u fs.
+Theorem decisions_eq_partial : forall o u fs, domain_ok o u fs -> cy_decide true o u fs = py_decide o u fs.
 Proof.
   intros o u fs [H1 H2 H3 H4 H5 H6 H7]. unfold cy_decide, py_decide.
   rewrite (rejected_eq_partial o u fs H1 H2 H3 H4 H5), (init_signature_eq o u fs H1 H2),
     repr_fields_eq, (hash_eq_partial o u fs H3), (match_args_eq_partial o u fs H1 H6),
     (body_eq_partial fs H7).
   destruct (compare_fields_eq o u fs) as [-> ->]. reflexivity.
+Qed.
+
+(* the code as it is (hx = false) on the further complement of the hash-field finding *)
+Theorem decisions_eq_asis_partial : forall o u fs,
+  domain_ok o u fs -> hash_none_is_compared fs -> cy_decide false o u fs = py_decide o u fs.
+Proof.
+  intros o u fs H Hh. rewrite <- (decisions_eq_partial o u fs H). unfold cy_decide. f_equal.
+  unfold cy_hash. now rewrite (hash_fields_eq_partial fs Hh), hash_fields_eq.
 Qed.
 
 (* ------------------------------------------------------------------ ordering = tuple ordering *)
